@@ -21,6 +21,11 @@ const (
 	// has not let the document pass.
 	RulePanics  = "C03RuleThatPanics"
 	PanicOpName = "C03RulePanics"
+	// TokenLimit is the parser token limit every server of the check is
+	// configured with (SetParserTokenLimit). Parsing is a gate: a document with
+	// more tokens - however valid otherwise - has not passed it (class tlim).
+	// Every other document of the alphabet stays far below it.
+	TokenLimit = 400
 )
 
 func init() {
@@ -60,13 +65,17 @@ func rulesWithout(name string) []validator.Rule {
 }
 
 // Classify decides the document class of a query text independently of the
-// executor: perr (does not parse), noop (parses, no operation), vpan (the
+// executor: perr (does not parse), tlim (parses, but has more than TokenLimit
+// tokens: rejected by the parser of a server configured with that limit), noop (parses, no operation), vpan (the
 // registered rule RulePanics panics on it), ok (passes the full rule set), unk
 // (fails ONLY the field-existence rule), inv (fails some other rule).
 func Classify(schema *ast.Schema, query string) string {
 	doc, err := parser.ParseQuery(&ast.Source{Input: query})
 	if err != nil {
 		return "perr"
+	}
+	if _, err := parser.ParseQueryWithTokenLimit(&ast.Source{Input: query}, TokenLimit); err != nil {
+		return "tlim"
 	}
 	if len(doc.Operations) == 0 {
 		return "noop"
@@ -202,6 +211,7 @@ var okDocs = []docT{
 	{query: "{ user { friend { friend { name } } } }"},
 	{query: "query F($id: Int!) { find(id: $id) }", vars: map[string]any{"id": 7}},
 	{query: "query F($id: Int!) { find(id: $id) name }", vars: map[string]any{"id": 1}},
+	{query: func() string { u, _ := TokenBorder(); return u }()}, // the longest document of its shape under the token limit
 }
 
 var multiDocs = []docT{
@@ -219,13 +229,48 @@ var badVarDocs = []docT{
 var perrDocs = []string{"{ name", "query {", "{ name }}", "{ user { id }", "query Q( { name }", "{ find(id: ) }"}
 var unkDocs = []string{"{ nosuch }", "{ name zzz }", "{ user { nosuch } }", "{ user { id } bogus }", "mutation { nosuch }",
 	"{ user { friend { nope } } }", "query U { nosuch2 name }"}
+// TlimDocs are documents that are valid in every respect (they would execute
+// on a server without a limit) but have more than TokenLimit tokens: repeated
+// selections that merge, a long argument list value, many small operations of
+// which one is selected, comments (gqlparser counts a comment as a token), and
+// one that crosses the limit only in its last tokens.
+var TlimDocs = func() []string {
+	rep := func(s string, n int) string { return strings.Repeat(s, n) }
+	var many strings.Builder
+	many.WriteString("query A { name }")
+	for i := 0; i < 90; i++ {
+		fmt.Fprintf(&many, " query Z%d { x: name }", i)
+	}
+	_, over := TokenBorder()
+	return []string{
+		"{ c: name" + rep(" c: name", 220) + " }",
+		"{ user { id" + rep(" id", 450) + " } }",
+		"query Q { name" + rep("\n# filler", 420) + "\n}",
+		many.String(),
+		over,
+	}
+}()
+
+// TokenBorder returns two valid documents that differ in one repeated
+// selection: the first is the longest of its shape the limit admits, the
+// second the shortest it refuses (found with the parser, not by counting).
+func TokenBorder() (under, over string) {
+	mk := func(n int) string { return "{ a: name" + strings.Repeat(" a: name", n) + " }" }
+	for n := 1; n < TokenLimit; n++ {
+		if _, err := parser.ParseQueryWithTokenLimit(&ast.Source{Input: mk(n)}, TokenLimit); err != nil {
+			return mk(n - 1), mk(n)
+		}
+	}
+	panic("c03lib: no document of the border shape exceeds the token limit")
+}
+
 var noopDocs = []string{"fragment F on Query { name }", "fragment G on User { id }"}
 var vpanDocs = []string{"query " + PanicOpName + " { name }", "query " + PanicOpName + " { user { id } name }",
 	"mutation " + PanicOpName + " { setName(v: \"x\") }", "query A { name } query " + PanicOpName + " { a: name }"}
 
 // Kinds is the request alphabet of the property statement (plus "invalid":
 // a document failing another validation rule than field existence).
-var Kinds = []string{"valid", "parse-error", "unknown-field", "no-operation", "operation-not-found", "bad-variable", "multi-operation", "invalid", "rule-panic"}
+var Kinds = []string{"valid", "parse-error", "unknown-field", "no-operation", "operation-not-found", "bad-variable", "multi-operation", "invalid", "rule-panic", "over-token-limit"}
 
 func pick[T any](rng *rand.Rand, xs []T) T { return xs[rng.Intn(len(xs))] }
 
@@ -292,6 +337,11 @@ func GenRequest(rng *rand.Rand, kind string, exts []HookSet, allowSub bool) *Req
 		q.Query = pick(rng, unkDocs)
 	case "no-operation":
 		q.Query = pick(rng, noopDocs)
+	case "over-token-limit":
+		q.Query = pick(rng, TlimDocs)
+		if strings.HasPrefix(q.Query, "query A") {
+			q.OpName = "A"
+		}
 	case "rule-panic":
 		q.Query = pick(rng, vpanDocs)
 		if strings.HasPrefix(q.Query, "query A") {
@@ -375,7 +425,7 @@ func (q *Request) Describe(schema *ast.Schema, tr string) {
 	if q.Gates == nil {
 		q.Gates = []Gate{}
 	}
-	if q.Cls == "perr" || q.Cls == "noop" {
+	if q.Cls == "perr" || q.Cls == "noop" || q.Cls == "tlim" {
 		return
 	}
 	doc, _ := parser.ParseQuery(&ast.Source{Input: q.Query})
@@ -410,7 +460,7 @@ var kindClass = map[string][3]string{
 	"operation-not-found": {"ok", "notfound", "good"}, "bad-variable": {"ok", "found", "bad"},
 	"parse-error": {"perr", "found", "good"}, "unknown-field": {"unk", "found", "good"},
 	"no-operation": {"noop", "found", "good"}, "invalid": {"inv", "found", "good"},
-	"rule-panic": {"vpan", "found", "good"},
+	"rule-panic": {"vpan", "found", "good"}, "over-token-limit": {"tlim", "found", "good"},
 }
 
 // Consistent reports whether the independent classification agrees with the
